@@ -439,6 +439,11 @@ static void mc_init(int argc, char **argv) {
     mc_load_known();
     setvbuf(stdout, NULL, _IOLBF, 0);
     if (replay) exit(mc_do_replay(replay));
+    for (int i = 0; i < 64; i++) {  // stale replay files of this tier
+        char path[256];
+        snprintf(path, sizeof path, "/verif/replay/%s/%s-%d.json", MC_PROPERTY, mc_tier, i);
+        unlink(path);
+    }
 }
 
 static int mc_finish(void) {
